@@ -10,8 +10,8 @@ from vf import common, findings
 from vf.props import deductive
 from vf.pyvc import verify as V
 
-WIDTHS_QUICK = ("40", "60", "79", "80", "100", "120", "200", "unset")
-WIDTHS_THOROUGH = WIDTHS_QUICK + ("20", "72", "99", "101", "119", "150", "400")
+WIDTHS_QUICK = ("20", "40", "60", "79", "80", "100", "120", "200", "unset")
+WIDTHS_THOROUGH = WIDTHS_QUICK + ("5", "10", "30", "72", "99", "101", "119", "150", "400")
 
 
 def type_obligations():
@@ -69,7 +69,7 @@ def _c18(failure, fd):
     return bool(eval(fd["cond"], g))
 
 
-KEYS = ["doctrans.pure_utils:unquote", "doctrans.defaults_utils:needs_quoting", "doctrans.docstring_parsers:_set_name_and_type",
+KEYS = ["doctrans.pure_utils:unquote", "doctrans.pure_utils:indent_all_but_first", "doctrans.defaults_utils:needs_quoting", "doctrans.docstring_parsers:_set_name_and_type",
         "doctrans.docstring_utils:emit_param_str"]
 
 
